@@ -4,13 +4,13 @@ use crate::support::*;
 use educe::Educe;
 use core::cmp::Ordering;
 #[derive(Educe)]
-#[educe(PartialOrd, PartialEq, Eq, Ord)]
-pub enum T { Unit {  }, V1(#[educe(PartialOrd(rank = "+5"))] ::core::num::NonZeroU8, #[educe(PartialOrd(rank = 2))] bool, #[educe(PartialOrd(rank = 6))] u8), Some(Option<u8>, ()), C }
+#[educe(PartialEq, Ord, Eq, PartialOrd)]
+pub enum T { C, None, B { b: &'static u8, x: char, #[educe(Ord(rank = "-1"))] state: Option<u8> }, V1 }
 
-pub fn values() -> Vec<T> { vec![T::Unit {  }, T::V1(::core::num::NonZeroU8::new(200).unwrap(), true, 100), T::V1(::core::num::NonZeroU8::new(1).unwrap(), true, 0), T::V1(::core::num::NonZeroU8::new(200).unwrap(), false, 100), T::V1(::core::num::NonZeroU8::new(1).unwrap(), false, 200), T::V1(::core::num::NonZeroU8::new(1).unwrap(), false, 0), T::V1(::core::num::NonZeroU8::new(200).unwrap(), false, 0), T::V1(::core::num::NonZeroU8::new(200).unwrap(), true, 0), T::V1(::core::num::NonZeroU8::new(1).unwrap(), false, 100), T::V1(::core::num::NonZeroU8::new(1).unwrap(), true, 100), T::Some(None, ()), T::Some(Some(0), ()), T::Some(Some(255), ()), T::C] }
-pub fn show(x: &T) -> String { #[allow(unused_variables)] match x { T::Unit {  } => format!("Unit()"), T::V1(p0, p1, p2) => format!("V1({},{},{})", sv(p0), sv(p1), sv(p2)), T::Some(p0, p1) => format!("Some({},{})", sv(p0), sv(p1)), T::C => format!("C()") } }
-pub fn o_disc(x: &T) -> i128 { match x { T::Unit {  } => 0, T::V1(_, _, _) => 1, T::Some(_, _) => 2, T::C => 3 } }
-pub fn o_cmp(a: &T, b: &T) -> Ordering { match (a, b) { (T::Unit {  }, T::Unit {  }) => {  Ordering::Equal }, (T::V1(a0, a1, a2), T::V1(b0, b1, b2)) => { let c = ::core::cmp::Ord::cmp(a1, b1); if c != Ordering::Equal { return c; } let c = ::core::cmp::Ord::cmp(a0, b0); if c != Ordering::Equal { return c; } let c = ::core::cmp::Ord::cmp(a2, b2); if c != Ordering::Equal { return c; } Ordering::Equal }, (T::Some(a0, a1), T::Some(b0, b1)) => { let c = ::core::cmp::Ord::cmp(a0, b0); if c != Ordering::Equal { return c; } let c = ::core::cmp::Ord::cmp(a1, b1); if c != Ordering::Equal { return c; } Ordering::Equal }, (T::C, T::C) => {  Ordering::Equal }, _ => o_disc(a).cmp(&o_disc(b)) } }
+pub fn values() -> Vec<T> { vec![T::C, T::None, T::B { b: &3u8, x: 'a', state: Some(255) }, T::B { b: &200u8, x: 'z', state: Some(0) }, T::B { b: &3u8, x: 'a', state: Some(0) }, T::B { b: &3u8, x: 'a', state: None }, T::B { b: &200u8, x: 'a', state: Some(255) }, T::B { b: &200u8, x: 'a', state: Some(0) }, T::B { b: &200u8, x: 'a', state: None }, T::B { b: &3u8, x: 'z', state: Some(255) }, T::B { b: &200u8, x: 'z', state: Some(255) }, T::V1] }
+pub fn show(x: &T) -> String { #[allow(unused_variables)] match x { T::C => format!("C()"), T::None => format!("None()"), T::B { b: p0, x: p1, state: p2 } => format!("B({},{},{})", sv(p0), sv(p1), sv(p2)), T::V1 => format!("V1()") } }
+pub fn o_disc(x: &T) -> i128 { match x { T::C => 0, T::None => 1, T::B { b: _, x: _, state: _ } => 2, T::V1 => 3 } }
+pub fn o_cmp(a: &T, b: &T) -> Ordering { match (a, b) { (T::C, T::C) => {  Ordering::Equal }, (T::None, T::None) => {  Ordering::Equal }, (T::B { b: a0, x: a1, state: a2 }, T::B { b: b0, x: b1, state: b2 }) => { let c = ::core::cmp::Ord::cmp(a0, b0); if c != Ordering::Equal { return c; } let c = ::core::cmp::Ord::cmp(a1, b1); if c != Ordering::Equal { return c; } let c = ::core::cmp::Ord::cmp(a2, b2); if c != Ordering::Equal { return c; } Ordering::Equal }, (T::V1, T::V1) => {  Ordering::Equal }, _ => o_disc(a).cmp(&o_disc(b)) } }
 #[repr(C)] pub struct Wrap { pub pre: u8, pub x: T, pub post: [u8; 9] }
 pub fn wrap(i: usize, n: u8) -> Wrap { Wrap { pre: n, x: values().swap_remove(i), post: [n; 9] } }
 pub fn run(out: &mut Out) { let vs = values(); for (i, a) in vs.iter().enumerate() { for (j, b) in vs.iter().enumerate() { let e = o_cmp(a, b); let g = ::core::cmp::Ord::cmp(a, b); out.check(g == e, "ordlayout_17", "cmp", || format!("cmp({}, {}) = {:?} expected {:?}", show(a), show(b), g, e)); let g2 = ::core::cmp::PartialOrd::partial_cmp(a, b); out.check(g2 == Some(e), "ordlayout_17", "partial_is_some_cmp", || format!("partial_cmp({}, {}) = {:?} expected Some({:?})", show(a), show(b), g2, e)); for n in [0u8, 1, 0x7f, 0x80, 0xff] { let wa = wrap(i, n); let wb = wrap(j, !n); let g = ::core::cmp::Ord::cmp(&wa.x, &wb.x); let e = o_cmp(a, b); out.check(g == e, "ordlayout_17", "cmp_neighbours", || format!("cmp({}, {}) with neighbour bytes {} = {:?} expected {:?}", show(a), show(b), n, g, e)); } } } }
